@@ -4,4 +4,5 @@ import LJT.Props.C13
 import LJT.Props.C16
 import LJT.Props.C02
 import LJT.Props.C10
+import LJT.Props.C08
 import LJT.Ops.C19
